@@ -1,6 +1,6 @@
 from __future__ import annotations
 
-from typing import Awaitable, Callable, Dict, List, Optional, Tuple, Type, Union
+from typing import Awaitable, Callable, Dict, List, Optional, Set, Tuple, Type, Union
 
 import h2
 import h2.connection
@@ -131,6 +131,7 @@ class H2Protocol:
         self.has_data = self.context.event_class()
         self.priority = priority.PriorityTree()
         self.stream_buffers: Dict[int, StreamBuffer] = {}
+        self.aborted_streams: Set[int] = set()
 
     @property
     def idle(self) -> bool:
@@ -179,7 +180,11 @@ class H2Protocol:
             if self.stream_buffers[stream_id].complete:
                 # With the last of the data, a sender released by
                 # the pop must not get ahead of the END_STREAM
-                self.connection.end_stream(stream_id)
+                if stream_id in self.aborted_streams:
+                    self.aborted_streams.discard(stream_id)
+                    self.connection.reset_stream(stream_id, h2.errors.ErrorCodes.INTERNAL_ERROR)
+                else:
+                    self.connection.end_stream(stream_id)
                 del self.stream_buffers[stream_id]
                 self.priority.remove_stream(stream_id)
             await self._flush()
@@ -237,12 +242,12 @@ class H2Protocol:
                 buffer = self.stream_buffers.get(event.stream_id)
                 if buffer is not None and not buffer._complete:
                     # The stream has closed without ending (e.g. the
-                    # app errored), the client must be told.
-                    await buffer.close()
-                    self.connection.reset_stream(
-                        event.stream_id, h2.errors.ErrorCodes.INTERNAL_ERROR
-                    )
-                    await self._flush()
+                    # app errored), the client must be told - after
+                    # what has been buffered so far has been sent.
+                    buffer.set_complete()
+                    self.aborted_streams.add(event.stream_id)
+                    self.priority.unblock(event.stream_id)
+                    await self.has_data.set()
                 idle = len(self.streams) == 0 or all(
                     stream.idle for stream in self.streams.values()
                 )
